@@ -116,3 +116,11 @@ Theorem C01_redirect_always_followed : forall c o dwr1 n t next r,
     end.
 Proof. exact post_item_follows_redirect. Qed.
 Print Assumptions C01_redirect_always_followed.
+
+(* ... and the target stays: the "bare domain" rule that drops an extracted asset with an empty path does not apply to
+   the target of a redirect (a redirect to the site root is the most ordinary redirect there is) *)
+Theorem C01_redirect_target_kept : forall o n p r t u ep,
+  st_of n = Fresh -> st_of p = GotRedirected -> o_pre o (id_of n) = POk u false ep ->
+  pre_loop o ((n, Some p) :: r) t = pre_loop o r (set_url_of (id_of n) u t).
+Proof. exact pre_loop_keeps_redirect_target. Qed.
+Print Assumptions C01_redirect_target_kept.
